@@ -12,6 +12,9 @@
 import AHP.Lemmas.DomAppend
 import AHP.Lemmas.FragmentTokens
 import AHP.Props.C02
+import AHP.Props.C04
+import AHP.Lemmas.DomAppendNew
+import AHP.Lemmas.FragmentText
 namespace AHP.C20
 open AHP AHP.Dom AHP.Dom.Spec
 
@@ -353,6 +356,88 @@ example : (createElementFromHTML 1 5 (.multi (toFNL (topNodes fragText))) = .err
 example : parsed fragText = some (.multi (toFNL (topNodes fragText))) :=
   parsed_multi fragText (noWrapper_of_dec _ (by decide)) (Or.inl (by decide))
 
+/-! ## C20d, directly about the NEW elements — and without a definedness hypothesis (review B, M6) -/
+
+/-- C20d **never undefined, and what the new elements look like.**  For every element `t` of an invariant world and
+    every fragment, `appendInnerHTML` is defined (`C04.appendInnerHTML_defined`: the elements `createBlocksFromHTML` creates
+    are distinct detached roots with fresh uids, so the domain of the appending loop holds by construction) and
+    afterwards:
+
+    * the target's blocks are EXACTLY the old blocks followed by the blocks of `createBlocksFromHTML`, each element
+      block attached (`attachBlk`: `parentNode` set, `ownerDocument` rewritten below it), text blocks as they are;
+    * the target keeps its uid, name, attributes, parent and owner;
+    * **every new top-level element's `parentNode` is the target, and the `ownerDocument` of it and of every element
+      below it is the target's owner**; its uid is fresh (≥ the world's counter before the call);
+    * the world invariant holds. -/
+theorem appendInnerHTML_new_elements (w : World) (t : Nat) (p : Parsed) (m : Meta) (bs : List DN)
+    (hw : Inv w) (hf : w.find? t = some (m, bs)) :
+    ∃ w' m', w.appendInnerHTML t p = some (w', .none) ∧ Inv w' ∧
+      w'.find? t = some (m', bs ++ (createBlocksFromHTML w.nextDoc w.next p).map (attachBlk m)) ∧
+      (m'.id = t ∧ m'.name = m.name ∧ m'.attrs = m.attrs ∧ m'.parent = m.parent ∧ m'.owner = m.owner) ∧
+      ∀ mc kc, DN.el mc kc ∈ (createBlocksFromHTML w.nextDoc w.next p).map (attachBlk m) →
+        mc.parent = some t ∧ w.next ≤ mc.id ∧ ∀ e ∈ elems (.el mc kc), e.1.owner = m.owner := by
+  have hd := C04.appendInnerHTML_defined w hw t (by simp [hf]) p
+  simp only [Dom.step] at hd
+  cases hr : w.appendInnerHTML t p with
+  | none => rw [hr] at hd; simp at hd
+  | some r =>
+    have hinv' : Inv r.1 := appendInnerHTML_Inv (w' := r.1) (v := r.2) hw hr
+    simp only [World.appendInnerHTML, Option.map_eq_some_iff] at hr
+    obtain ⟨w1, h1, he⟩ := hr
+    subst he
+    obtain ⟨m', hfind, hk⟩ := appendLoop_exact t (createBlocks (p.build w.nextDoc w.next).1) w.roots _ _ m bs w1 hf
+      (fragment_world_Inv p hw) h1
+    have hid : m.id = t := find?_id t w.roots hf hw.roots
+    obtain ⟨hroots, _, hfresh⟩ := createBlocksFromHTML_roots w.nextDoc w.next p
+    refine ⟨w1, m', rfl, hinv', hfind, ⟨hk.1.trans hid, hk.2.1, hk.2.2.1, hk.2.2.2.1, hk.2.2.2.2⟩, ?_⟩
+    intro mc kc hmem
+    obtain ⟨b, hb, e⟩ := mem_map_attachBlk_el m _ hmem
+    obtain ⟨h1', h2', h3'⟩ := attachBlk_el_spec m b (hroots b hb) e
+    refine ⟨by rw [h1', hid], ?_, h3'⟩
+    apply hfresh
+    rw [h2']
+    obtain ⟨m0, k0, rfl, _⟩ := hroots b hb
+    exact el_mem_idsL _ hb
+
+/-! ## C20c — "no text that is not in the fragment"
+
+  `sfragment n (.multi tops)` (AHP/Lemmas/DomSpec.lean) starts with an EMPTY text block: that is the behaviour of the code
+  written into the specification (`createBlocksFromHTML('hi <b>x</b>')` is `['', 'hi ', <b>]` on the library — the
+  wrapper element's `blocks` start with the empty indent string every element is created with, and the function copies
+  that list), not something the property asks for.  The property's wording is about text that is NOT in the fragment; it is
+  proved on top of it: every NON-EMPTY text block returned is a top-level text node of the parse, i.e. the text of one
+  text-like token (data, entity / character reference, comment) of the fragment. -/
+
+/-- C20c at the level of the parse: a text block handed out is empty (the leading `''` of a multi-node fragment) or a
+    top-level text node of the parse. -/
+theorem createBlocks_text_in_parse (doc n : Nat) (p : Parsed) (hp : Parsed.plain p) (s : Str)
+    (h : DN.text s ∈ createBlocksFromHTML doc n p) (hs : s ≠ []) :
+    (∃ tops, p = .multi tops ∧ FN.text s ∈ tops) ∨ p = .single (.text s) := by
+  rcases createBlocks_text_parsed doc n p hp s h with h0 | h1
+  · exact absurd h0 hs
+  · exact h1
+
+/-- C20c **every non-empty text block returned occurs in the fragment's token list**: for the tokens `toks` of a
+    fragment that does not mention the reserved wrapper name and the parse `p` the document parser hands over, a
+    non-empty text block of `createBlocksFromHTML` is `Spec.textOf t` for some token `t` of `toks` — a data token's text,
+    `&name;` / `&#n;` of a reference, `<!--…-->` of a comment.  (The only text block that is not: the empty one.) -/
+theorem createBlocks_text_in_fragment (toks : List Token) (hw : C02.NoWrapper toks) (doc n : Nat) (p : Parsed)
+    (hp : parsed toks = some p) (s : Str) (h : DN.text s ∈ createBlocksFromHTML doc n p) (hs : s ≠ []) :
+    ∃ t ∈ toks, Spec.textOf t = some s := by
+  have hplain := parsed_plain toks hw p hp
+  rcases createBlocks_text_in_parse doc n p hplain s h hs with ⟨tops, rfl, hm⟩ | rfl
+  · rcases (createBlocks_of_tokens toks hw doc n _ hp).2 with ⟨r, _, _, e⟩ | ⟨_, e⟩
+    · cases e
+    · simp only [Parsed.multi.injEq] at e
+      rw [e] at hm
+      exact topNodes_text_from_token toks s (toFNL_text_mem _ s hm)
+  · rcases (createBlocks_of_tokens toks hw doc n _ hp).2 with ⟨r, _, hr, e⟩ | ⟨_, e⟩
+    · simp only [Parsed.single.injEq] at e
+      cases r with
+      | text s' => simp [Node.isText] at hr
+      | elem nm a sc kids => simp [Node.toFN] at e
+    · cases e
+
 /-! ## C20e — createElement -/
 
 /-- C20e. `createElement(name)` is detached (no parent, no ownerDocument), lower-cased, without
@@ -371,5 +456,19 @@ def exFrag : Parsed := .multi [.text "hi ".toList, .el "b".toList [] false [.tex
 example : Parsed.plain exFrag := trivial
 example : (createBlocksFromHTML 1 5 exFrag).length = 4 := by decide
 example : ((initWorld true (.el "div".toList [] false []) []).appendInnerHTML 0 exFrag).isSome = true := by decide
+/-- the hypotheses of `appendInnerHTML_new_elements` on a concrete world, and what it says there: the `<div>` gets the
+    four blocks `'' 'hi ' <b> <br>`, the two new elements have uids 2 and 3 (fresh), parent 0 and the document 0 -/
+example : Inv (initWorld true (.el "div".toList [] false []) []) :=
+  C04.initial_world_inv true _ [] (by decide) (by decide)
+example : ((initWorld true (.el "div".toList [] false []) []).appendInnerHTML 0 exFrag).map
+      (fun r => ((r.1.find? 0).map (fun e => e.2.map (fun b => match b with
+        | .text s => (s, none, none)
+        | .el mc _ => (mc.name, mc.parent, mc.owner)))))
+    = some (some [([], none, none), ([], none, none), ("hi ".toList, none, none), ("b".toList, some 0, some 0),
+        ("br".toList, some 0, some 0)]) := by decide
+/-- `createBlocks_text_in_fragment` on `fragTwo` (`hi <b>x</b> <i/>`): the non-empty text blocks are the two data tokens -/
+example : (createBlocksFromHTML 1 5 (.multi (toFNL (topNodes fragTwo)))).filterMap (fun b => match b with
+      | .text s => some s
+      | _ => none) = [[], "hi ".toList, " ".toList] := by decide
 
 end AHP.C20
